@@ -622,7 +622,7 @@ runLoop:
 			queue := c.undecryptablePacketsToProcess
 			c.undecryptablePacketsToProcess = nil
 			for _, p := range queue {
-				processed, err := c.handleOnePacket(p.receivedPacket, p.datagramID)
+				processed, err := c.processOnePacket(p.receivedPacket, p.datagramID)
 				if err != nil {
 					c.setCloseError(&closeError{err: err})
 					break runLoop
@@ -1052,7 +1052,14 @@ func (c *Conn) handlePackets() (wasProcessed bool, _ error) {
 
 func (c *Conn) handleOnePacket(rp receivedPacket, datagramID qlog.DatagramID) (wasProcessed bool, _ error) {
 	c.sentPacketHandler.ReceivedBytes(rp.Size(), rp.rcvTime)
+	return c.processOnePacket(rp, datagramID)
+}
 
+// processOnePacket handles a datagram (or a queued part of one) without crediting its size
+// to the anti-amplification limit. Packets that were queued because their keys were not
+// available yet are re-processed through this function: their bytes were already counted
+// when the datagram they arrived in was received.
+func (c *Conn) processOnePacket(rp receivedPacket, datagramID qlog.DatagramID) (wasProcessed bool, _ error) {
 	if wire.IsVersionNegotiationPacket(rp.data) {
 		return false, c.handleVersionNegotiationPacket(rp)
 	}
